@@ -45,7 +45,7 @@ POOL_KIND = {
     "method_ref": "methodref", "interface_method_ref": "imethodref", "method_ref_or_interface_method_ref": "methodref|imethodref",
     "invoke_dynamic": "indy",
 }
-LABEL_CALLS = {"get_or_create", "try_get", "create", "get"}
+LABEL_CALLS = {"get_or_create", "get_or_create_check_exclusive", "try_get", "create", "get"}
 RANGE_CALLS = {"get_or_create_range", "try_get_range"}
 
 
